@@ -206,7 +206,67 @@ def run_c12(ctx):
                         "chunk sums beyond 2^33 are outside the property (decryption by table lookup)"]
 
 
-RUNNERS = {"C20": run_c20, "C19": run_c19, "C12": run_c12}
+SIGMA_PROTOCOLS = ["dlog", "aggregate_dlog", "dlog_eq", "com_eq", "com_eq_different_groups", "com_enc_eq", "vcom_eq", "com_lin", "com_mult", "and_dlog_com_eq", "replicate_dlog"]
+SIGMA_BOUND = {"dlog", "aggregate_dlog", "com_eq", "com_eq_different_groups", "com_enc_eq", "vcom_eq", "com_mult", "and_dlog_com_eq", "replicate_dlog"}
+
+
+def run_c07(ctx):
+    import re
+    quick = ctx.tier == "quick"
+    rows = []
+    # (a) framing
+    ctx.tlc(SPEC, "Transcript.tla", "Transcript.cfg", workers=8, timeout=3000)
+    te = ctx.tlc(SPEC, "Transcript.tla", "Transcript_export.cfg", workers=4, timeout=3000)
+    rows += [json.loads(x) for x in te.replays]
+    # (b) the protocols as linear maps over a small field
+    def one(p):
+        cfg = "Sigma_%s.cfg" % p if quick or p not in ("com_lin", "com_mult") else "Sigma_%s_full.cfg" % p
+        return p, ctx.tlc(SPEC, "Sigma.tla", cfg, name="Sigma_" + p, workers=2, timeout=6000)
+    with ThreadPoolExecutor(max_workers=6) as ex:
+        runs = list(ex.map(one, SIGMA_PROTOCOLS))
+    for p, r in runs:
+        out = os.path.join(ctx.work, "tlc_Sigma_%s.out" % p)
+        found = False
+        for line in open(out):
+            m = re.match(r'^<<"ROWS", (".*")>>', line.strip())
+            if m:
+                found = True
+                if p in SIGMA_BOUND:
+                    rows += json.loads(json.loads(m.group(1)))
+        if not found:
+            raise ToolError("no rows exported for protocol %s" % p)
+    ctx.exhaustive = True
+    for i, r in enumerate(rows):
+        r["idx"] = i
+    hist, bad = parallel_replay(ctx, "c07-replay", [json.dumps(r) for r in rows], "c07", parts=14)
+    ctx.extra["row_histogram"] = hist
+    if hist.get("transcript", 0) < 1000:
+        raise ToolError("vacuous C07 run: transcript rows %s" % hist.get("transcript", 0))
+    for p in SIGMA_BOUND:
+        if hist.get(p + ":accept", 0) < 3 or hist.get(p + ":reject", 0) < 15:
+            raise ToolError("vacuous C07 run for %s: %s / %s" % (p, hist.get(p + ":accept", 0), hist.get(p + ":reject", 0)))
+    # canary: altered byte stream of a transcript row must be flagged
+    c = json.loads(json.dumps(next(r for r in rows if r.get("kind") == "transcript" and r["v1"])))
+    c["v1"] = c["v1"] + [0]
+    c["legacy"] = c["legacy"] + [0]
+    inp = os.path.join(ctx.work, "canary.ndjson")
+    outp = os.path.join(ctx.work, "canary.res")
+    write_ndjson(inp, [c])
+    ctx.harness("base", ["c07-replay", inp, outp])
+    if not [x for x in read_ndjson(outp) if not x.get("summary")]:
+        raise ToolError("canary: altered transcript bytes not flagged")
+    ctx.extra["canary"] = "altered transcript byte stream flagged"
+    ctx.extra["protocols_model_checked"] = SIGMA_PROTOCOLS
+    ctx.extra["protocols_bound_to_code"] = sorted(SIGMA_BOUND)
+    ctx.rule = ("Transcript.tla: all pairs of operation sequences of the same shape up to 2 operations over 6 labels / 7 items (V1 framing injective), every single sequence replayed on "
+                "TranscriptProtocolV1 and RandomOracle against SHA3-256 of the specified bytes. Sigma.tla: each protocol as a matrix of group elements over Z_5 / Z_3, all witnesses, "
+                "randomness vectors and challenges (completeness, response and statement binding, special soundness); rows = (protocol, one witness component at 0 / 1 / r-1 or all random or all zero, "
+                "perturbation target in {none, context, challenge, each public input, each response component}) replayed on BLS12-381 with the legacy and the V1 transcript; distinct = distinct rows")
+    ctx.assumptions += ["dlog_eq (private type) and com_lin (secret not constructible from outside the crate) are model-checked but not replayed; com_eq_sig, ps_sig_known, com_ineq and enc_trans are exercised through C08 / C12 / C18",
+                        "soundness and zero-knowledge are cryptographic statements outside TLC: the model shows the equations over small fields, the replay shows the code accepts / rejects on the enumerated classes"]
+
+
+RUNNERS = {"C20": run_c20, "C19": run_c19, "C12": run_c12, "C07": run_c07}
 
 
 def run(ctx):
